@@ -80,6 +80,7 @@ def check_history(case, ctx: Ctx):
     require(not config.free_arithmetics, "free_arithmetics_leaked", "")
     invariants(h, "after construction", nonneg)
     faults_seen = []
+    operands = []
     valid_before_fault = False
     any_valid = False
 
@@ -124,12 +125,19 @@ def check_history(case, ctx: Ctx):
             pts = [point(t) for t in op[1]]
             arr = np.array(pts, dtype=float).reshape(len(pts), d) if d > 1 else np.array(pts, dtype=float)
             attempt(h.fill_n, arr)
-        elif name == "iadd":
+        elif name in ("iadd", "iadd_grown"):
             o = other()
+            if name == "iadd_grown":
+                # an adaptive operand over a different range (grown by a fill outside the common bins)
+                if not h.is_adaptive():
+                    continue
+                o.fill(point(op[1]))
+            kept = content_map(o)
             def f():
                 nonlocal h
                 h += o
             attempt(f)
+            operands.append((o, kept, what))
         elif name == "isub_smaller":
             o = other(zero=True)
             def f():
@@ -322,6 +330,12 @@ def check_history(case, ctx: Ctx):
             if name == "fill" and op[2] is not None and op[2] < 0 and raised is None:
                 nonneg = False
         invariants(h, what, nonneg)
+        for o, kept, since in operands:
+            # the operands of earlier operations stay well-formed and keep their contents, whatever happens to h later
+            invariants(o, f"operand of {since}, after {what}", True)
+            now = content_map(o)
+            require(now is not None and now[0] == kept[0] and same(now[1], kept[1]), "operand_changed",
+                    lambda: f"operand of {since} changed after {what}: {kept} -> {now}")
         if not nonneg:
             # a negative weight was accepted (legal): contents may be negative from here on, which is
             # outside the property's premise ("with non-negative weights") - end the history
@@ -331,7 +345,7 @@ def check_history(case, ctx: Ctx):
     ctx.nt(len(set(faults_seen)) >= 2 and valid_before_fault)
 
 
-VALID = ["fill", "fill", "fill_n", "iadd", "isub_smaller", "imul", "idiv", "merge", "set_dtype"]
+VALID = ["fill", "fill", "fill_n", "iadd", "iadd_grown", "isub_smaller", "imul", "idiv", "merge", "set_dtype"]
 
 
 @st.composite
@@ -342,6 +356,8 @@ def one_op(draw):
         return [name, draw(ts), draw(st.sampled_from([None, None, 2, 0.5, -1]))]
     if name == "fill_n":
         return [name, draw(st.lists(ts, max_size=3))]
+    if name == "iadd_grown":
+        return [name, draw(st.lists(st.sampled_from([1.7, -0.6, 2.4, -1.3]), min_size=3, max_size=3))]
     if name == "imul":
         # 2**40: the contents still fit into int64, the squared factor does not
         return [name, draw(st.sampled_from([2, 0.5, 3, 2.5, 2, 3, 2 ** 40, 2 ** 70]))]
@@ -382,6 +398,13 @@ def histories(draw, tier="quick"):
 
         spec["err2"] = scale(spec["err2"] if spec["err2"] is not None else spec["freq"])
         ops.insert(draw(st.integers(0, len(ops))), ["dtype_lossy", draw(st.sampled_from(["int16", "int8", "int32"]))])
+    if adaptive and draw(st.booleans()):
+        # an adaptive operand over another range joins in, and the histogram keeps growing afterwards
+        i = draw(st.integers(0, len(ops)))
+        ops.insert(i, ["iadd_grown", draw(st.lists(st.sampled_from([1.7, -0.6, 2.4, -1.3]), min_size=3, max_size=3))])
+        j = draw(st.integers(i + 1, len(ops)))
+        t = draw(st.sampled_from([1.7, -0.6, 2.4, -1.3, 3.5]))
+        ops.insert(j, ["fill", [t, t, t], None])
     d = len(spec["axes"])
     if d > 1 and not adaptive and draw(st.integers(0, 2)) == 0:
         # a gap on a later axis: an in-place merge over all axes must fail without touching the earlier ones
